@@ -443,7 +443,7 @@ def upstream_flush_check(ch: Any, rule: str) -> int:
             continue
         wp = wparams[0]
         atom = 'self.upstream.connection.fileno() in %s' % wp
-        if not any(isinstance(c, ast.Compare) and len(c.ops) == 1 and isinstance(c.ops[0], (ast.In, ast.NotIn)) and norm(c.comparators[0]) == wp for c in walk_no_nested(fn.node)):
+        if not any(isinstance(c, ast.Compare) and len(c.ops) == 1 and isinstance(c.ops[0], (ast.In, ast.NotIn)) for c in walk_no_nested(fn.node)):
             continue
         g = cfg_of(fn, prog, exc_edges=False)
         relevant = 0
